@@ -185,6 +185,112 @@ func c03Monitor(b *bridgeHist) {
 	}
 }
 
+// c03Gen queues one block's worth of Bitcoin activity, votes and deposit submissions.
+func c03Gen(b *bridgeHist, blk int, muts []depMutator) {
+	lh := b.lh
+	r := lh.r
+	// execution-layer side: parameter changes now and then
+	if r.Intn(7) == 0 {
+		rate := []uint64{0, 1, 5, 30, 9999}[r.Intn(5)]
+		cap := []uint64{0, 1, 50, 1000, 100_000_000}[r.Intn(5)]
+		b.bridgeReq.DepositTax = append(b.bridgeReq.DepositTax, &goattypes.DepositTaxRequest{Rate: rate, Max: cap})
+		lh.logf("EL: tax rate %d cap %d", rate, cap)
+	}
+	if r.Intn(15) == 0 {
+		m := []uint64{1001, 5000, 10_000, 50_000}[r.Intn(4)]
+		b.bridgeReq.MinDeposit = append(b.bridgeReq.MinDeposit, &goattypes.MinDepositRequest{Satoshi: m})
+		lh.logf("EL: min deposit %d", m)
+	}
+	// Bitcoin side
+	switch {
+	case blk%9 == 4:
+		b.mineDeposits(1+r.Intn(5), r.Intn(3) == 0)
+	case blk%3 == 0 && b.bc.Tip < 125:
+		b.bc.MineEmpty(16)
+	}
+	// one voted message per block: mostly block hashes, sometimes a new key, sometimes a hostile batch
+	switch {
+	case r.Intn(12) == 0 && len(b.keys) < 4:
+		if op := b.pubkeyOp(); op != nil {
+			b.ops = append(b.ops, op)
+		}
+	case r.Intn(6) == 0:
+		if op := b.hashesOp([]string{"start-at-tip", "start-after-gap", "rewrite-old", "seventeen"}[r.Intn(4)]); op != nil {
+			b.ops = append(b.ops, op)
+		}
+	default:
+		if op := b.hashesOp("next"); op != nil {
+			b.ops = append(b.ops, op)
+		}
+	}
+	// deposit submissions
+	var fresh, done, unvoted []*depTruth
+	for _, d := range b.deps {
+		switch {
+		case d.Block.Height > b.votedTip:
+			unvoted = append(unvoted, d)
+		case d.Credited:
+			done = append(done, d)
+		default:
+			fresh = append(fresh, d)
+		}
+	}
+	nops := r.Intn(5)
+	for k := 0; k < nops; k++ {
+		switch x := r.Intn(10); {
+		case x < 3 && len(fresh) > 0: // genuine batch
+			n := 1 + r.Intn(min(len(fresh), 6))
+			items := fresh[:n]
+			fresh = fresh[n:]
+			var ds []*bitcointypes.Deposit
+			all := true
+			for _, t := range items {
+				ds = append(ds, b.genuineDeposit(t))
+				t.Attempts++
+				if t.Index == 0 && b.votedTip < t.Block.Height+100 {
+					all = false // immature coinbase in the batch: a legitimate refusal
+				}
+				if t.Value < b.params().MinDepositAmount {
+					all = false
+				}
+			}
+			b.ops = append(b.ops, b.depositsOp(ds, hdrsFor(items), "genuine", all))
+		case x < 7 && len(fresh)+len(done) > 0: // one mutated item
+			pool := append(append([]*depTruth{}, fresh...), done...)
+			t := pool[r.Intn(len(pool))]
+			m := muts[r.Intn(len(muts))]
+			d := b.genuineDeposit(t)
+			hs := hdrsFor([]*depTruth{t})
+			if !m.f(b, t, d, &hs) {
+				continue
+			}
+			b.ops = append(b.ops, b.depositsOp([]*bitcointypes.Deposit{d}, hs, m.name, false))
+		case x == 7 && len(done) > 0: // replay of a credited deposit
+			t := done[r.Intn(len(done))]
+			b.ops = append(b.ops, b.depositsOp([]*bitcointypes.Deposit{b.genuineDeposit(t)}, hdrsFor([]*depTruth{t}), "replay-credited", false))
+		case x == 8 && len(fresh) > 0: // duplicate inside one batch
+			t := fresh[0]
+			b.ops = append(b.ops, b.depositsOp([]*bitcointypes.Deposit{b.genuineDeposit(t), b.genuineDeposit(t)}, hdrsFor([]*depTruth{t}), "duplicate-in-batch", false))
+		case x == 9 && len(unvoted) > 0: // block not voted yet
+			t := unvoted[r.Intn(len(unvoted))]
+			b.ops = append(b.ops, b.depositsOp([]*bitcointypes.Deposit{b.genuineDeposit(t)}, hdrsFor([]*depTruth{t}), "block-not-voted", false))
+		}
+	}
+	// coinbase deposits: under position 0 and under aliased positions, before and after maturity
+	for _, t := range b.deps {
+		if t.Index == 0 && !t.Credited && t.Block.Height <= b.votedTip && r.Intn(4) == 0 {
+			d := b.genuineDeposit(t)
+			name := "coinbase-position-0"
+			if r.Intn(2) == 0 {
+				d.TxIndex = uint32(1+r.Intn(3)) << uint(t.Block.Tree.Depth())
+				name = "coinbase-aliased-position"
+			}
+			mature := b.votedTip >= t.Block.Height+100
+			b.ops = append(b.ops, b.depositsOp([]*bitcointypes.Deposit{d}, hdrsFor([]*depTruth{t}), fmt.Sprintf("%s-mature=%v", name, mature), false))
+		}
+	}
+}
+
 func c03History(c *vc.Ctx, idx int) {
 	cfg := lockCfg{Label: "c03", NVals: 1, Blocks: c.Pick(60, 170), Protect0: true, NRelayers: 1 + idx%3, W: lockWeights{}}
 	lh, err := newLockHistSchnorr(c, cfg, idx, idx%2 == 1)
@@ -211,106 +317,7 @@ func c03History(c *vc.Ctx, idx int) {
 		if !b.refreshGroup() {
 			return
 		}
-		// execution-layer side: parameter changes now and then
-		if r.Intn(7) == 0 {
-			rate := []uint64{0, 1, 5, 30, 9999}[r.Intn(5)]
-			cap := []uint64{0, 1, 50, 1000, 100_000_000}[r.Intn(5)]
-			b.bridgeReq.DepositTax = append(b.bridgeReq.DepositTax, &goattypes.DepositTaxRequest{Rate: rate, Max: cap})
-			lh.logf("EL: tax rate %d cap %d", rate, cap)
-		}
-		if r.Intn(15) == 0 {
-			m := []uint64{1001, 5000, 10_000, 50_000}[r.Intn(4)]
-			b.bridgeReq.MinDeposit = append(b.bridgeReq.MinDeposit, &goattypes.MinDepositRequest{Satoshi: m})
-			lh.logf("EL: min deposit %d", m)
-		}
-		// Bitcoin side
-		switch {
-		case blk%9 == 4:
-			b.mineDeposits(1+r.Intn(5), r.Intn(3) == 0)
-		case blk%3 == 0 && b.bc.Tip < 125:
-			b.bc.MineEmpty(16)
-		}
-		// one voted message per block: mostly block hashes, sometimes a new key, sometimes a hostile batch
-		switch {
-		case r.Intn(12) == 0 && len(b.keys) < 4:
-			if op := b.pubkeyOp(); op != nil {
-				b.ops = append(b.ops, op)
-			}
-		case r.Intn(6) == 0:
-			if op := b.hashesOp([]string{"start-at-tip", "start-after-gap", "rewrite-old", "seventeen"}[r.Intn(4)]); op != nil {
-				b.ops = append(b.ops, op)
-			}
-		default:
-			if op := b.hashesOp("next"); op != nil {
-				b.ops = append(b.ops, op)
-			}
-		}
-		// deposit submissions
-		var fresh, done, unvoted []*depTruth
-		for _, d := range b.deps {
-			switch {
-			case d.Block.Height > b.votedTip:
-				unvoted = append(unvoted, d)
-			case d.Credited:
-				done = append(done, d)
-			default:
-				fresh = append(fresh, d)
-			}
-		}
-		nops := r.Intn(5)
-		for k := 0; k < nops; k++ {
-			switch x := r.Intn(10); {
-			case x < 3 && len(fresh) > 0: // genuine batch
-				n := 1 + r.Intn(min(len(fresh), 6))
-				items := fresh[:n]
-				fresh = fresh[n:]
-				var ds []*bitcointypes.Deposit
-				all := true
-				for _, t := range items {
-					ds = append(ds, b.genuineDeposit(t))
-					t.Attempts++
-					if t.Index == 0 && b.votedTip < t.Block.Height+100 {
-						all = false // immature coinbase in the batch: a legitimate refusal
-					}
-					if t.Value < b.params().MinDepositAmount {
-						all = false
-					}
-				}
-				b.ops = append(b.ops, b.depositsOp(ds, hdrsFor(items), "genuine", all))
-			case x < 7 && len(fresh)+len(done) > 0: // one mutated item
-				pool := append(append([]*depTruth{}, fresh...), done...)
-				t := pool[r.Intn(len(pool))]
-				m := muts[r.Intn(len(muts))]
-				d := b.genuineDeposit(t)
-				hs := hdrsFor([]*depTruth{t})
-				if !m.f(b, t, d, &hs) {
-					continue
-				}
-				b.ops = append(b.ops, b.depositsOp([]*bitcointypes.Deposit{d}, hs, m.name, false))
-			case x == 7 && len(done) > 0: // replay of a credited deposit
-				t := done[r.Intn(len(done))]
-				b.ops = append(b.ops, b.depositsOp([]*bitcointypes.Deposit{b.genuineDeposit(t)}, hdrsFor([]*depTruth{t}), "replay-credited", false))
-			case x == 8 && len(fresh) > 0: // duplicate inside one batch
-				t := fresh[0]
-				b.ops = append(b.ops, b.depositsOp([]*bitcointypes.Deposit{b.genuineDeposit(t), b.genuineDeposit(t)}, hdrsFor([]*depTruth{t}), "duplicate-in-batch", false))
-			case x == 9 && len(unvoted) > 0: // block not voted yet
-				t := unvoted[r.Intn(len(unvoted))]
-				b.ops = append(b.ops, b.depositsOp([]*bitcointypes.Deposit{b.genuineDeposit(t)}, hdrsFor([]*depTruth{t}), "block-not-voted", false))
-			}
-		}
-		// coinbase deposits: under position 0 and under aliased positions, before and after maturity
-		for _, t := range b.deps {
-			if t.Index == 0 && !t.Credited && t.Block.Height <= b.votedTip && r.Intn(4) == 0 {
-				d := b.genuineDeposit(t)
-				name := "coinbase-position-0"
-				if r.Intn(2) == 0 {
-					d.TxIndex = uint32(1+r.Intn(3)) << uint(t.Block.Tree.Depth())
-					name = "coinbase-aliased-position"
-				}
-				mature := b.votedTip >= t.Block.Height+100
-				b.ops = append(b.ops, b.depositsOp([]*bitcointypes.Deposit{d}, hdrsFor([]*depTruth{t}), fmt.Sprintf("%s-mature=%v", name, mature), false))
-			}
-		}
+		c03Gen(b, blk, muts)
 		if blk == restartAt {
 			nn, err := lh.ch.Nodes[0].Restart()
 			if err != nil {
